@@ -95,6 +95,22 @@ Definition glue_C19 (k : string) (a o : list value) : option verdict :=
                     v_oracle := C19_ok tr; v_expected := expected |}
         end
     end
+  else if is k "pll.longgap" then
+    (* the duration clause of the property at full strength (no bound on the gap between updates) *)
+    match parse_updates (S (length a)) a with
+    | None => None
+    | Some uds =>
+        let us := map fst uds in
+        let expected := map (fun ue => VL (map value_of_event (snd ue))) (pll_run pll_init us) in
+        match observed_trace us o with
+        | None => Some (relational false true)
+        | Some tr =>
+            let durations_positive :=
+              forallb (fun ue => forallb (fun e => match e with EAdjust _ dur _ => 0 <? dur | _ => true end) (snd ue)) tr in
+            Some {| v_known := true; v_agree := values_eqb expected o;
+                    v_oracle := C19_ok tr && durations_positive; v_expected := expected |}
+        end
+    end
   else None.
 
 Definition run_case (k : string) (a o : list value) : verdict :=
